@@ -498,12 +498,12 @@ Fixpoint nondec (l : list Z) : bool :=
 Lemma insert_key_id_nondec x l : nondec l = true -> nondec (insert_key (fun z => z) x l) = true.
 Proof.
   induction l as [|y l IH]; intros H; [reflexivity|]. cbn [insert_key].
-  destruct (x <? y) eqn:E.
-  - cbn [nondec]. cbn [nondec] in H. rewrite H. assert (x <=? y = true) by lia. rewrite H0. reflexivity.
+  destruct (x <=? y) eqn:E.
+  - cbn [nondec]. cbn [nondec] in H. rewrite H, E. reflexivity.
   - destruct l as [|z r].
     + cbn. assert (y <=? x = true) by lia. rewrite H0. reflexivity.
     + cbn [nondec] in H. apply andb_prop in H. destruct H as [H1 H2]. specialize (IH H2).
-      cbn [insert_key] in *. destruct (x <? z) eqn:E2.
+      cbn [insert_key] in *. destruct (x <=? z) eqn:E2.
       * cbn [nondec]. cbn [nondec] in IH. assert (y <=? x = true) by lia. rewrite H. exact IH.
       * cbn [nondec]. cbn [nondec] in IH. rewrite H1. exact IH.
 Qed.
@@ -556,7 +556,7 @@ Lemma sort_key_in {A} (key : A -> Z) l x : In x (sort_key key l) <-> In x l.
 Proof.
   assert (I : forall y l', In x (insert_key key y l') <-> x = y \/ In x l').
   { intros y l'. induction l' as [|z l' IH]; cbn [insert_key]; [cbn; intuition|].
-    destruct (key y <? key z); cbn [In]; [intuition|]. rewrite IH. intuition. }
+    destruct (key y <=? key z); cbn [In]; [intuition|]. rewrite IH. intuition. }
   unfold sort_key. induction l as [|y l IH]; [reflexivity|]. cbn [fold_right In]. rewrite I, IH. intuition.
 Qed.
 
